@@ -26,7 +26,7 @@ def main(tier):
     from concurrent.futures import ThreadPoolExecutor
     def run_ephmc(a):
         dpt, multi = a
-        return a, subprocess.run([os.path.join(out, "harness", "ephmc"), str(dpt), str(multi)], env=e, stdout=subprocess.PIPE,
+        return a, subprocess.run([os.path.join(out, "harness", "ephmc"), str(dpt), str(multi)], env=e, stdout=subprocess.PIPE, preexec_fn=common.die_with_parent,
                                  stderr=subprocess.STDOUT, timeout=3000)
     FDS2_OPS = 12
     def run_fds2(k):
